@@ -301,7 +301,10 @@ def meadows_case(draw):
     elif shape == 'matN':
         ps = draw(st.lists(petname_st(), min_size=n_rdm, max_size=n_rdm, unique=True))
         case['participants'] = ps
-        case['task_name'] = draw(letters_st) + draw(name_st)
+        # task names are free text: also an everyday word that happens to be in the pet-name list
+        case['task_name'] = draw(st.one_of(letters_st.flatmap(lambda c: name_st.map(lambda t: c + t)),
+                                           letters_st.flatmap(lambda c: name_st.map(lambda t: c + t)),
+                                           st.sampled_from(['bird', 'fly', 'cat', 'lab', 'fish', 'dog'])))
         case['var_order'] = draw(st.sampled_from(['rdm-first', 'stim-first', 'interleaved']))
     else:
         case['participants'] = [draw(petname_st())]
@@ -711,8 +714,11 @@ def design_case(draw):
         # power-of-two factor per column; the normalised design column does not depend on it
         units = [draw(st.sampled_from([0, 0, -40, -30, 20])) for _ in range(n_cf)]
         cols = [[v * 2.0 ** e for v in col] for col, e in zip(cols, units)]
+        # a column with n/a entries: in the first volume (derivatives), in the last (lead
+        # regressors) or somewhere in between (censored volumes) -- such columns are left out
         conf = dict(names=CONF_NAMES[:n_cf], cols=cols, units=units,
-                    nan_at=draw(st.one_of(st.integers(0, n_cf), st.none())))
+                    nan_at=draw(st.one_of(st.integers(0, n_cf), st.none())),
+                    nan_rows=draw(st.sampled_from([[0], [0], [-1], [3], [0, 1], [5, -1]])))
     return dict(tr=tr, n_vols=n_vols, names=names, rows=rows, alt_onsets=alt,
                 perm=draw(gen.permutation(len(rows))), target=draw(st.integers(0, n_cond - 1)),
                 confounds=conf)
@@ -733,7 +739,10 @@ def _confound_frame(conf, n_vols):
     for i in range(len(conf['names']) + 1):
         if conf['nan_at'] == i:
             # fmriprep derivative columns: n/a in the first volume
-            cols['deriv_nan'] = [float('nan')] + [float(v) for v in range(n_vols - 1)]
+            col = [float(v) for v in range(n_vols)]
+            for r in conf.get('nan_rows') or [0]:
+                col[r] = float('nan')
+            cols['deriv_nan'] = col
         if i < len(conf['names']):
             cols[conf['names'][i]] = [float(v) for v in conf['cols'][i]]
             kept.append(np.array(conf['cols'][i], dtype=float))
